@@ -3,6 +3,7 @@ import DaskModel.Lemmas.StructuralLemmas
 import DaskModel.Lemmas.PadLemmas
 import DaskModel.Lemmas.ShufflePlanLemmas
 import DaskModel.Lemmas.ReshapeGroupsLemmas
+import DaskModel.Lemmas.ReshapeWalkInv
 import DaskModel.Lemmas.StructuralOpsLemmas
 import DaskModel.Generated.ChunkTolerance
 /-!
@@ -442,6 +443,38 @@ example : reshapeRechunk [2, 3, 4] [6, 4] [[1, 1], [2, 1], [4]]
     = .ok ([some [1, 1], some [2, 1], some [4]], [some [2, 1, 2, 1], some [4]], [(2, 1), (1, 1)]) := by decide
 example : reshapeRechunk [12] [2, 3, 2] [[5, 7]] = .ok ([some [6, 6]], [some [1, 1], some [3], some [2]], [(1, 3)]) := by decide
 example : reshapeRechunk [4, 5, 6] [6, 5, 4] [[4], [5], [6]] = .error .notImpl := by decide
+
+
+/-- **reshape_rechunk_groupsOK**: for chunk tuples of the input shape (non-empty, positive, adding up — what `reshape`
+    passes), *whatever* `reshape_rechunk` returns — it may instead raise NotImplementedError for uneven merges / splits —
+    assigns every axis on both sides (no `None` left), its chunk tuples add up to the input and the output shape, and the
+    plan decomposes into contiguous axis groups with equal block sizes. Invariant of the two-pointer walk
+    (`Lemmas/ReshapeWalkInv.lean`); `_smooth_chunks` keeps per-axis sums and contiguity (`smoothGroup_spec`). No bound on the
+    number of axes or the sizes. -/
+theorem reshape_rechunk_groupsOK {inshape outshape : List Nat} {inchunks : List (List Nat)} (hv : ValidIn inshape inchunks)
+    {ri ro : List (Option (List Nat))} {gs : List (Nat × Nat)}
+    (h : reshapeRechunk inshape outshape inchunks = .ok (ri, ro, gs)) :
+    ∃ ri' ro', ri = ri'.map some ∧ ro = ro'.map some ∧ ri'.map sum = inshape ∧ ro'.map sum = outshape ∧
+      groupsOK ri' ro' gs = true := reshapeRechunk_ok hv h
+
+/-- **reshape_den**: `reshape` for every input chunking — after rechunking the input to `result_inchunks`, the block-by-block
+    `M.reshape` in product order produces exactly the blocks `result_outchunks` of the reshaped array (same C-order data
+    block by block, same number of blocks, declared chunks add up to the new shape). -/
+theorem reshape_den {α} {inshape outshape : List Nat} {inchunks : List (List Nat)} (hv : ValidIn inshape inchunks)
+    {ri ro : List (Option (List Nat))} {gs : List (Nat × Nat)}
+    (h : reshapeRechunk inshape outshape inchunks = .ok (ri, ro, gs)) (flat : List α) (hl : flat.length = prod inshape) :
+    ∃ ri' ro', ri = ri'.map some ∧ ro = ro'.map some ∧ ri'.map sum = inshape ∧ ro'.map sum = outshape ∧
+      blocksFlat 1 ri' flat = blocksFlat 1 ro' flat ∧ nBlocks ri' = nBlocks ro' := by
+  obtain ⟨ri', ro', h1, h2, h3, h4, h5⟩ := reshapeRechunk_ok hv h
+  have hsz : flat.length = size ri' := by unfold size; rw [h3, hl]
+  obtain ⟨i1, _, i3⟩ := reshape_blocks_den ri' ro' gs flat h5 hsz
+  exact ⟨ri', ro', h1, h2, h3, h4, i1, i3⟩
+
+example : ValidIn [4, 3] [[2, 2], [2, 1]] := ValidIn_of_validInB (by decide)
+example : ValidIn [2, 3, 4] [[1, 1], [2, 1], [4]] := ValidIn_of_validInB (by decide)
+/-- a side that has run out of axes counts as length one (the repaired negative-index wrap) -/
+example : reshapeRechunk [1] [1, 1, 1] [[1]] = .ok ([some [1]], [some [1], some [1], some [1]], [(0, 1), (0, 1), (1, 1)]) := by decide
+example : reshapeRechunk [2, 1, 1] [2] [[1, 1], [1], [1]] = .ok ([some [1, 1], some [1], some [1]], [some [1, 1]], [(1, 1), (1, 0), (1, 0)]) := by decide
 
 
 /-! ### blockwise / key-map operations (Model/StructuralOps.lean): transpose, flip, rot90, tril / triu, stack, broadcast_to,
